@@ -14,7 +14,7 @@ with the terminate event set (it then exits at its next poll - refinement condit
 from pbsym import ctx
 from pbsym.ctx import B
 from pbsym.models import mp as mpm
-from harness.C08 import run_world, LIFE, TIMEOUT_S, BEH
+from harness.C08 import run_world, scenario, _d_ok, _l_ok, LIFE, TIMEOUT_S, BEH, QB, TB
 
 PROPERTY = 'C13'
 FUNCTIONS = ['playback/studio/equalizer.py::Equalizer.run_comparison',
@@ -31,23 +31,22 @@ OUTSIDE = ['wall-clock behaviour of the OS, os.kill failing', 'more than 3 recor
 def finishes_clean(l0: int, l1: int, l2: int, d0: int, d1: int, d2: int, lag0: int, lag1: int, rate: int,
                    consume: int, k: int, n: int) -> bool:
     """
-    pre: all(0 <= x < 4 for x in (l0, l1, l2)) and all(0 <= d <= B('DMAX') for d in (d0, d1, d2))
-    pre: 0 <= lag0 <= B('LAG') and 0 <= lag1 <= B('LAG') and 1 <= rate <= 3 and 0 <= consume <= 2 and 1 <= k <= 3
-    pre: 1 <= n <= B('N')
+    pre: _l_ok(l0, l1, l2) and all(_d_ok(d) for d in (d0, d1, d2))
+    pre: 0 <= lag0 <= B('LAG') and 0 <= lag1 <= B('LAG') and rate in B('RATES') and 0 <= consume <= 2 and 1 <= k <= 2
+    pre: n in B('NS')
     post: _
     """
     ctx.begin()
-    n = ctx.pick(n, range(1, B('N') + 1))
-    rate = ctx.pick(rate, (1, 2, 3))
+    sc_ = scenario(0, 0, 0, l0, l1, l2, d0, d1, d2, lag0, lag1, rate, n)
+    if sc_ is None:
+        return ctx.done(True)
+    ids, behs, life, delays, lags, rate = sc_
+    lag0, lag1 = lags
+    n = len(ids)
     consume = ctx.pick(consume, (0, 1, 2))
-    k = ctx.pick(k, (1, 2, 3))
-    sl = ctx.S('life')
-    if sl is not None:
-        life = [sl[0], sl[1], LIFE[ctx.pick(l2, range(4))]][:n]
-    else:
-        life = [LIFE[ctx.pick(x, range(4))] for x in (l0, l1, l2)][:n]
-    delays = [d0, d1, d2][:n]
-    ids = ['r0', 'r1', 'r2'][:n]
+    k = ctx.pick(k, (1, 2))
+    if consume == 0 and k != 1:
+        return ctx.done(True)
     mode = [None, ('close', k), ('raise', k)][consume]
     out, world, eq, spans, journal = run_world(ids, ['equal'] * n, life, delays, [lag0, lag1], rate, False, mode)
     expected_n = n if mode is None else min(n, k)
@@ -72,8 +71,8 @@ CONDITIONS = [
     {'fn': 'finishes_clean', 'nontrivial': 'worker-trouble',
      'what': 'hangs / deaths at every position, every recycle rate, full / closed-early / consumer-raises consumption; '
              'sharded by the life-cycle behaviour of the first two tasks',
-     'tiers': {'quick': {'bounds': {'DMAX': 12, 'LAG': 1, 'N': 3}, 'timeout': 600,
+     'tiers': {'quick': {'bounds': dict(QB, L2=[0, 2, 3], DELAYS=[0, 8, 13], RATES=[1, 2]), 'timeout': 600,
                          'shards': [{'life': list(p)} for p in _LIFE2], 'witness_shard': {'life': ['hang', 'ok']}},
-               'thorough': {'bounds': {'DMAX': 16, 'LAG': 2, 'N': 3}, 'timeout': 6000,
+               'thorough': {'bounds': TB, 'timeout': 8000,
                             'shards': [{'life': list(p)} for p in _LIFE2], 'witness_shard': {'life': ['hang', 'ok']}}}},
 ]
